@@ -108,7 +108,13 @@ func cmdVerify(args []string) {
 		err    error
 	}
 	var items []*item
+	if *all {
+		keys = append(keys, "lemmas")
+	}
 	for _, key := range keys {
+		if key == "lemmas" {
+			continue
+		}
 		fc, err := w.NewFnCtx(key)
 		if err != nil {
 			fmt.Println("ERROR", err)
@@ -123,6 +129,12 @@ func cmdVerify(args []string) {
 	// headers are rendered after all generation so that every literal / heap key is declared
 	for _, it := range items {
 		it.header, it.err = w.scriptHeader(it.fc)
+	}
+	for _, k := range keys {
+		if k == "lemmas" {
+			lfc, lh, err := w.LemmaObligations()
+			items = append(items, &item{fc: lfc, header: lh, err: err})
+		}
 	}
 	var wg sync.WaitGroup
 	for _, it := range items {
